@@ -62,6 +62,7 @@ type zzC09Sys struct {
 	conf     Config
 	hour     atomic.Uint32
 	nUpd     int
+	payMode  int
 }
 
 // zzC09Clients etc. are the pools the concrete entries are drawn from.
@@ -74,9 +75,10 @@ var (
 // zzC09NewSys creates a fresh module in dir: empty database, clock at base.
 func zzC09NewSys(dir string, seed int64, catMap []Result, base uint32, limitH int, enabled bool) (y *zzC09Sys, err error) {
 	y = &zzC09Sys{
-		rng:    rand.New(rand.NewSource(seed)),
-		file:   filepath.Join(dir, "stats.db"),
-		catMap: catMap,
+		rng:     rand.New(rand.NewSource(seed)),
+		file:    filepath.Join(dir, "stats.db"),
+		catMap:  catMap,
+		payMode: -1,
 	}
 	_ = os.Remove(y.file)
 	y.hour.Store(base)
@@ -182,27 +184,113 @@ func (y *zzC09Sys) putConfig(change func(m map[string]any)) (err error) {
 	return nil
 }
 
-// entry concretises one counted query of real category res.
-func (y *zzC09Sys) entry(res Result) (e *Entry) {
-	y.nUpd++
-	e = &Entry{
-		Client:         zzC09Clients[y.rng.Intn(len(zzC09Clients))],
-		Domain:         zzC09Domains[y.rng.Intn(len(zzC09Domains))],
-		Result:         res,
-		ProcessingTime: time.Duration(y.rng.Intn(5_000_000)) * time.Microsecond,
+// zzC09Mix is splitmix64: a tiny deterministic stream derived from a payload
+// seed.
+type zzC09Mix uint64
+
+func (m *zzC09Mix) next() (v uint64) {
+	*m += 0x9e3779b97f4a7c15
+	z := uint64(*m)
+	z = (z ^ (z >> 30)) * 0xbf58476d1ce4e5b9
+	z = (z ^ (z >> 27)) * 0x94d049bb133111eb
+
+	return z ^ (z >> 31)
+}
+
+func (m *zzC09Mix) n(k int) (v int) { return int(m.next() % uint64(k)) }
+
+// zzC09PayModes is the number of processing-time classes, see entry.
+const zzC09PayModes = 6
+
+// nextP draws the payload seed of the next counted query.  The low bits hold
+// the processing-time class; the class is sticky (redrawn for every sixth
+// query on average), so that whole hours consist of one class.
+func (y *zzC09Sys) nextP() (p int64) {
+	if y.payMode < 0 || y.rng.Intn(6) == 0 {
+		y.payMode = y.rng.Intn(zzC09PayModes)
 	}
 
-	for n := y.rng.Intn(3); n > 0; n-- {
-		us := &proxy.UpstreamStatistics{
-			Address:       zzC09Ups[y.rng.Intn(len(zzC09Ups))],
-			QueryDuration: time.Duration(y.rng.Intn(900_000)) * time.Microsecond,
-			IsCached:      y.rng.Intn(4) == 0,
-		}
-		if y.rng.Intn(5) == 0 {
-			us.Error = fmt.Errorf("upstream failed")
-		}
+	return (y.rng.Int63()>>4)<<3 | int64(y.payMode) | 1<<62
+}
 
-		e.UpstreamStats = append(e.UpstreamStats, us)
+// entry concretises one counted query of real category res.  The statement
+// says every counted query is in the totals whatever else it carries, so
+// everything but the category is drawn from p over the boundary values of
+// each field: processing time zero / below a microsecond / around one
+// microsecond / ordinary / huge, one-character and maximal-length domain
+// names, short and long client ids, upstream list nil / empty / several
+// entries with cached, failed, zero-duration and huge-duration answers.
+// (Empty domain or client make the entry invalid, i.e. not a counted query;
+// they are not generated.)
+func (y *zzC09Sys) entry(res Result, p int64) (e *Entry) {
+	y.nUpd++
+	m := zzC09Mix(p)
+	mode := int(p & 7)
+	if mode >= zzC09PayModes-1 {
+		mode = m.n(zzC09PayModes - 1) // mixed: any class, entry by entry
+	}
+
+	var pt time.Duration
+	switch mode {
+	case 0:
+		pt = 0
+	case 1:
+		pt = time.Duration(1 + m.n(999)) // below one microsecond
+	case 2:
+		pt = []time.Duration{999, 1000, 1001, 1999, 2000}[m.n(5)] // around one microsecond
+	case 3:
+		pt = time.Duration(m.n(5_000_000)) * time.Microsecond
+	default:
+		pt = time.Hour + time.Duration(m.n(2400))*time.Hour
+	}
+
+	e = &Entry{Result: res, ProcessingTime: pt}
+	switch m.n(6) {
+	case 0:
+		e.Domain = "x"
+	case 1:
+		e.Domain = strings.Repeat(strings.Repeat("a", 62)+".", 3) + strings.Repeat("b", 61) + "." // 253 octets
+	default:
+		e.Domain = zzC09Domains[m.n(len(zzC09Domains))]
+	}
+
+	switch m.n(6) {
+	case 0:
+		e.Client = "c"
+	case 1:
+		e.Client = strings.Repeat("client-id-", 20)
+	default:
+		e.Client = zzC09Clients[m.n(len(zzC09Clients))]
+	}
+
+	switch m.n(5) {
+	case 0:
+		// nil list.
+	case 1:
+		e.UpstreamStats = []*proxy.UpstreamStatistics{}
+	default:
+		for n := 1 + m.n(3); n > 0; n-- {
+			us := &proxy.UpstreamStatistics{
+				Address:  zzC09Ups[m.n(len(zzC09Ups))],
+				IsCached: m.n(4) == 0,
+			}
+			switch m.n(4) {
+			case 0:
+				us.QueryDuration = 0
+			case 1:
+				us.QueryDuration = time.Duration(1 + m.n(999))
+			case 2:
+				us.QueryDuration = time.Duration(m.n(900_000)) * time.Microsecond
+			default:
+				us.QueryDuration = 24 * time.Hour
+			}
+
+			if m.n(5) == 0 {
+				us.Error = fmt.Errorf("upstream failed")
+			}
+
+			e.UpstreamStats = append(e.UpstreamStats, us)
+		}
 	}
 
 	return e
@@ -216,13 +304,24 @@ func zzC09Recover(err *error) {
 	}
 }
 
-// do performs one abstract action on the real module.
+// do performs one abstract action on the real module; the payload of an
+// update is drawn from the module's own seeded stream.
 func (y *zzC09Sys) do(act string, x int) (err error) {
+	var p int64
+	if act == "update" {
+		p = y.nextP()
+	}
+
+	return y.doP(act, x, p)
+}
+
+// doP is do with the payload seed of the update given.
+func (y *zzC09Sys) doP(act string, x int, p int64) (err error) {
 	defer zzC09Recover(&err)
 
 	switch act {
 	case "update":
-		y.s.Update(y.entry(y.catMap[x-1]))
+		y.s.Update(y.entry(y.catMap[x-1], p))
 	case "tick":
 		y.hour.Add(uint32(x))
 	case "flush":
@@ -590,6 +689,7 @@ type zzC09Step struct {
 	A string   `json:"a"`
 	O zzC09Obs `json:"o"`
 	X int      `json:"x"`
+	P int64    `json:"p"`
 	L int      `json:"lim"`
 	U bool     `json:"up"`
 }
@@ -605,17 +705,17 @@ type zzC09Path struct {
 	En     bool        `json:"en"`
 }
 
-func (g *zzC09Graph) mkPath(start int, path []int32, seed int64, base uint32, catMap []Result) (p *zzC09Path) {
+func (g *zzC09Graph) mkPath(start int, path []int32, pays []int64, seed int64, base uint32, catMap []Result) (p *zzC09Path) {
 	st := &g.states[start]
 	p = &zzC09Path{Seed: seed, Base: base, Lim: st.Lim, En: st.En}
 	for _, c := range catMap {
 		p.CatMap = append(p.CatMap, int(c))
 	}
 
-	for _, ei := range path {
+	for i, ei := range path {
 		e := &g.edges[ei]
 		d := &g.states[e.D]
-		p.Steps = append(p.Steps, zzC09Step{A: e.A, X: e.X, O: d.O, L: d.Lim, U: d.Up})
+		p.Steps = append(p.Steps, zzC09Step{A: e.A, X: e.X, P: pays[i], O: d.O, L: d.Lim, U: d.Up})
 	}
 
 	return p
@@ -637,7 +737,12 @@ func zzC09RunPath(dir string, p *zzC09Path) (bad int, msgs []string, got *zzC09G
 
 	for i := range p.Steps {
 		st := &p.Steps[i]
-		if err = y.do(st.A, st.X); err != nil {
+		pay := st.P
+		if st.A == "update" && pay == 0 {
+			pay = y.nextP()
+		}
+
+		if err = y.doP(st.A, st.X, pay); err != nil {
 			return i, []string{"action failed: " + err.Error()}, nil, nil
 		}
 
@@ -774,6 +879,7 @@ func zzC09Walk(t *testing.T, g *zzC09Graph, w, nw int, frac int, seed int64, dea
 		cur     int
 		start   int
 		hist    []int32
+		histP   []int64
 		catMap  []Result
 		base    uint32
 		sysSeed int64
@@ -796,7 +902,7 @@ func zzC09Walk(t *testing.T, g *zzC09Graph, w, nw int, frac int, seed int64, dea
 			return false
 		}
 
-		cur, start, hist = at, at, hist[:0]
+		cur, start, hist, histP = at, at, hist[:0], histP[:0]
 
 		return true
 	}
@@ -810,7 +916,13 @@ func zzC09Walk(t *testing.T, g *zzC09Graph, w, nw int, frac int, seed int64, dea
 	step := func(ei int32) (ok bool) {
 		e := &g.edges[ei]
 		d := &g.states[e.D]
+		var pay int64
+		if e.A == "update" {
+			pay = y.nextP()
+		}
+
 		hist = append(hist, ei)
+		histP = append(histP, pay)
 		ws.Steps++
 		ws.Acts[e.A]++
 
@@ -818,7 +930,7 @@ func zzC09Walk(t *testing.T, g *zzC09Graph, w, nw int, frac int, seed int64, dea
 		var got *zzC09Got
 		t0 := time.Now()
 		defer func() { actNs[e.A] += int64(time.Since(t0)) }()
-		if derr := y.do(e.A, e.X); derr != nil {
+		if derr := y.doP(e.A, e.X, pay); derr != nil {
 			msgs = []string{"action failed: " + derr.Error()}
 		} else if d.Up {
 			ws.Reads++
@@ -845,9 +957,24 @@ func zzC09Walk(t *testing.T, g *zzC09Graph, w, nw int, frac int, seed int64, dea
 		// Disagreement: reproduce in isolation.  First the shortest behaviour
 		// that reaches the source state plus this edge, then the whole walk
 		// since the module was created.
+		// The short behaviour gives every update the payload of the most
+		// recent update of the walk; the long one repeats the payloads exactly.
 		s0, sp := g.shortest(e.S)
-		short := g.mkPath(s0, append(sp, ei), sysSeed, base, catMap)
-		long := g.mkPath(start, hist, sysSeed, base, catMap)
+		sp = append(sp, ei)
+		var lastP int64
+		for i := len(histP) - 1; i >= 0 && lastP == 0; i-- {
+			lastP = histP[i]
+		}
+
+		shortP := make([]int64, len(sp))
+		for i, sei := range sp {
+			if g.edges[sei].A == "update" {
+				shortP[i] = lastP
+			}
+		}
+
+		short := g.mkPath(s0, sp, shortP, sysSeed, base, catMap)
+		long := g.mkPath(start, hist, histP, sysSeed, base, catMap)
 		rec := map[string]any{"kind": "flaky", "act": e.A, "x": e.X, "msgs": msgs, "got": got, "want": d.O,
 			"lim": d.Lim, "path": short, "walk_len": len(hist)}
 		for _, cand := range []*zzC09Path{short, long} {
@@ -1279,7 +1406,7 @@ func zzC09RunHist(dir string, seed int64) (h *zzC09Hist, err error) {
 	main := func(op string, k int) {
 		var e *Entry
 		if op == "update" {
-			e = y.entry(Result(k))
+			e = y.entry(Result(k), y.nextP())
 		}
 
 		run(0, seq0, op, k, e)
@@ -1318,7 +1445,7 @@ func zzC09RunHist(dir string, seed int64) (h *zzC09Hist, err error) {
 			var js []job
 			for n := 1 + rng.Intn(2); n > 0 && budget > 2; n-- {
 				k := 1 + rng.Intn(5)
-				js = append(js, job{op: "update", k: k, e: y.entry(Result(k)), spn: rng.Intn(40)})
+				js = append(js, job{op: "update", k: k, e: y.entry(Result(k), y.nextP()), spn: rng.Intn(40)})
 				budget--
 			}
 
